@@ -694,7 +694,7 @@ impl World {
                 // nobody listens there any more (old client address, attacker address)
                 let sid = self.addr_id(pk.src);
                 let did = self.addr_id(pk.dst);
-                self.trace.push(vec![2, self.now as i128, -1, sid, pk.data.len() as i128, 9, -1, 0, did]);
+                self.trace.push(vec![2, self.now as i128, -1, sid, pk.data.len() as i128, 9, -1, 0, pk.origin, pk.kind, 0, did]);
                 continue;
             };
             let silence_after = self.p.get(k::SILENCE_AFTER, -1);
